@@ -17,7 +17,42 @@ from vcore import tlc as T
 from vcore.pool import pmap
 from vcore.tlaval import parse_state
 
-INVS = ["Partition", "IdentityCopied", "IdentityOwnOnly", "OwnInputOnly", "ConditionerSeesIdentityOnly", "Triangular"]
+INVS = ["Partition", "IdentityCopied", "IdentityOwnOnly", "OwnInputOnly", "ConditionerSeesIdentityOnly", "Triangular", "IdentityNeverRejected", "RejectedIffCheckedOutside"]
+DEN = 2
+MASKCONST = {"MaskValues": "<- MaskValuesHalves", "MaskDen": DEN, "NumPixels": 2}
+PIECEWISE = ("PLinear", "PQuadratic", "PCubic", "PRQ")
+
+
+def mask_object(mask, seed):
+    """The specification's mask (integers in units of 1/DEN) as one of the containers a user passes."""
+    import numpy as np
+    import torch
+
+    vals = [v / DEN for v in mask]
+    integral = all(v % DEN == 0 for v in mask)
+    kinds = ["list", "tuple", "float_tensor", "numpy", "bool_tensor"]
+    if integral:
+        kinds += ["int_list", "long_tensor"]
+        if min(mask) >= 0:
+            kinds.append("byte_tensor")
+    k = kinds[(sum((i + 1) * v for i, v in enumerate(mask)) + seed) % len(kinds)]
+    if k == "list":
+        return vals
+    if k == "tuple":
+        return tuple(vals)
+    if k == "float_tensor":
+        return torch.tensor(vals)
+    if k == "numpy":
+        return np.array(vals)
+    if k == "bool_tensor":
+        return torch.tensor(vals) > 0
+    ints = [v // DEN for v in mask]
+    if k == "int_list":
+        return ints
+    if k == "long_tensor":
+        return torch.tensor(ints, dtype=torch.long)
+    return torch.tensor(ints, dtype=torch.uint8)
+
 CLASSES = ["Affine", "Additive", "PLinear", "PQuadratic", "PCubic", "PRQ", "UMNN"]
 H, W = 1, 2
 
@@ -46,7 +81,7 @@ def make_mixnet(torch, in_f, out_f, img, ctx, seed):
     return MixNet()
 
 
-def build(cls, mask, img, uncond, ctx, seed, libnet=False):
+def build(cls, mask, img, uncond, ctx, seed, libnet=False, bounded=False):
     import torch
     from nflows import transforms as TR
     from nflows.nn import nets
@@ -59,6 +94,7 @@ def build(cls, mask, img, uncond, ctx, seed, libnet=False):
         return make_mixnet(torch, i, o, img, ctx, seed)
 
     ishape = [H, W] if img else None
+    mask = mask_object(mask, seed)
     if cls in ("Affine", "Additive"):
         C = TR.AffineCouplingTransform if cls == "Affine" else TR.AdditiveCouplingTransform
         ut = (lambda features: TR.PointwiseAffineTransform(shift=0.25, scale=1.5)) if uncond else None
@@ -68,6 +104,8 @@ def build(cls, mask, img, uncond, ctx, seed, libnet=False):
             return None
         return TR.UMNNCouplingTransform(mask, create, integrand_net_layers=[6, 6], cond_size=2, nb_steps=10, apply_unconditional_transform=uncond)
     C = {"PLinear": TR.PiecewiseLinearCouplingTransform, "PQuadratic": TR.PiecewiseQuadraticCouplingTransform, "PCubic": TR.PiecewiseCubicCouplingTransform, "PRQ": TR.PiecewiseRationalQuadraticCouplingTransform}[cls]
+    if bounded:
+        return C(mask, create, num_bins=3, tails=None, apply_unconditional_transform=uncond, img_shape=ishape)
     return C(mask, create, num_bins=3, tails="linear", tail_bound=3.0, apply_unconditional_transform=uncond, img_shape=ishape)
 
 
@@ -86,15 +124,19 @@ def check_state(st, cls, ctx, seed, libnet=False):
     img = st["layout"] == "img"
     uncond = bool(st["uncond"])
     inv = st["dir"] == "inv"
+    bounded = bool(st["bounded"])
+    outside = sorted(int(i) - 1 for i in st["outside"])
+    if bounded and cls not in PIECEWISE:
+        return 0, [], []
     ident = [int(i) - 1 for i in st["ident"]]
     trans = [int(i) - 1 for i in st["trans"]]
     torch.manual_seed(seed)
     try:
-        m = build(cls, mask, img, uncond, ctx, seed, libnet)
+        m = build(cls, mask, img, uncond, ctx, seed, libnet, bounded)
     except Exception as e:
         # Coupling.tla's Construct accepts every mask with both sides non-empty ("any pattern and any
         # numeric values"); a constructor that refuses one breaks the documented mask contract
-        case = {"cls": cls, "mask": mask, "layout": st["layout"], "uncond": uncond, "dir": st["dir"], "ctx": ctx, "seed": seed, "libnet": libnet}
+        case = {"cls": cls, "mask": mask, "den": DEN, "bounded": bounded, "outside": outside, "layout": st["layout"], "uncond": uncond, "dir": st["dir"], "ctx": ctx, "seed": seed, "libnet": libnet}
         return 1, [dict(case, clause="constructor_rejects_mask", detail="constructor raised %r" % (e,))], []
     if m is None:
         return 0, [], []
@@ -107,17 +149,47 @@ def check_state(st, cls, ctx, seed, libnet=False):
     f = m.inverse if inv else m.forward
     c = torch.randn(3, ctx, generator=g) if ctx else None
     # (1) bit-for-bit copy of identity features; inputs contain -0.0, 0.0, values beyond the tail bound
-    x = torch.rand(shape, generator=g) * 1.6 - 0.8
-    x.view(-1)[::3] = -0.0
-    x.view(-1)[1::7] = 4.5
-    x.view(-1)[2::11] = 0.0
-    case = {"cls": cls, "mask": mask, "layout": st["layout"], "uncond": uncond, "dir": st["dir"], "ctx": ctx, "seed": seed, "libnet": libnet}
-    try:
-        with torch.no_grad():
-            y, lad = f(x.clone(), c)
-    except Exception as e:
-        fails.append(dict(case, clause="call_raises", detail=repr(e)[:200]))
-        return 1, fails, drifts
+    case = {"cls": cls, "mask": mask, "den": DEN, "bounded": bounded, "outside": outside, "layout": st["layout"], "uncond": uncond, "dir": st["dir"], "ctx": ctx, "seed": seed, "libnet": libnet}
+    if bounded:
+        # the elementwise transform lives on the unit box: features in `outside` carry values beyond it
+        # (on every row, together with -0.0 and the box's end points on the others)
+        x = torch.rand(shape, generator=g) * 0.9 + 0.05
+        x.view(-1)[::5] = 1.0
+        x.view(-1)[2::7] = 0.0
+        for j, i in enumerate(outside):
+            x[:, i] = torch.tensor([4.5, -0.8, 1.0 + 2.0 ** -20])[(torch.arange(3) + j) % 3].reshape((3,) + (1,) * (len(shape) - 2))
+            if i in ident:
+                x[0, i].view(-1)[0] = -0.0
+        from nflows.transforms.base import InputOutsideDomain
+
+        try:
+            with torch.no_grad():
+                y, lad = f(x.clone(), c)
+            got = "Value"
+        except InputOutsideDomain:
+            got = "InputOutsideDomain"
+        except Exception as e:
+            fails.append(dict(case, clause="call_raises", detail=repr(e)[:200]))
+            return 1, fails, drifts
+        if got != st["outcome"]:
+            if st["outcome"] == "Value":
+                fails.append(dict(case, clause="identity_value_rejected", detail="the call raised InputOutsideDomain although only identity features %s lie outside the elementwise transform's box" % (outside,)))
+            else:
+                drifts.append("%s mask %s %s: features %s outside the box were accepted, the specification says InputOutsideDomain" % (cls, mask, st["dir"], outside))
+            return 1, fails, drifts
+        if got == "InputOutsideDomain":
+            return 1, fails, drifts
+    else:
+        x = torch.rand(shape, generator=g) * 1.6 - 0.8
+        x.view(-1)[::3] = -0.0
+        x.view(-1)[1::7] = 4.5
+        x.view(-1)[2::11] = 0.0
+        try:
+            with torch.no_grad():
+                y, lad = f(x.clone(), c)
+        except Exception as e:
+            fails.append(dict(case, clause="call_raises", detail=repr(e)[:200]))
+            return 1, fails, drifts
     n = 1
     if y.shape != x.shape:
         fails.append(dict(case, clause="shape", detail="output shape %s for input %s" % (tuple(y.shape), tuple(x.shape))))
@@ -128,7 +200,7 @@ def check_state(st, cls, ctx, seed, libnet=False):
                 fails.append(dict(case, clause="identity_not_bitwise", detail="identity feature %d (mask %d) is not returned bit-for-bit: %s -> %s" % (i, mask[i], x[:, i].flatten()[:4].tolist(), y[:, i].flatten()[:4].tolist())))
                 break
     # (1b) the two directions use the same split / write-back: round trip on generic interior rows
-    xr = torch.rand(shape, generator=g) * 1.2 - 0.6
+    xr = torch.rand(shape, generator=g) * 0.8 + 0.1 if bounded else torch.rand(shape, generator=g) * 1.2 - 0.6
     with torch.no_grad():
         a, lad1 = m.forward(xr.clone(), c)
         b, lad2 = m.inverse(a, c)
@@ -139,7 +211,7 @@ def check_state(st, cls, ctx, seed, libnet=False):
     if not torch.allclose(b, xr, atol=tol, rtol=tol) or not torch.allclose(lad1 + lad2, torch.zeros_like(lad1), atol=5 * tol):
         fails.append(dict(case, clause="roundtrip", detail="inverse(forward(x)) differs from x by %.3g, logabsdet sum %.3g" % (float((b - xr).abs().max()), float((lad1 + lad2).abs().max()))))
     # (2) dependency pattern on one generic interior row
-    x1 = (torch.rand((1,) + shape[1:], generator=g) * 1.2 - 0.6)
+    x1 = torch.rand((1,) + shape[1:], generator=g) * 0.8 + 0.1 if bounded else (torch.rand((1,) + shape[1:], generator=g) * 1.2 - 0.6)
     c1 = c[:1] if c is not None else None
     P = H * W if img else 1
     if cls == "UMNN":
@@ -194,33 +266,38 @@ def task(t):
 
 def main(run, replay=None):
     run.rule = (
-        "cases = (mask, layout, unconditional transform, direction) states of Coupling.tla x coupling class x context, each "
+        "cases = (mask, layout, unconditional transform, box-bounded, features outside the box, direction) states of Coupling.tla x coupling class x context, each "
         "checked for bit-identical identity features and for its Jacobian pattern; non-trivial = distinct such tuples"
     )
     if replay:
         c = replay["case"]
         warnings.filterwarnings("ignore")
-        res = T.run_tlc("Coupling", T.cfg(constants={"MaxD": max(2, len(c["mask"])), "MaskValues": "<- MaskValuesSmall", "NumPixels": 2}), dump=True, coverage=False, workers=4)
+        res = T.run_tlc("Coupling", T.cfg(constants={"MaxD": max(2, len(c["mask"])), **MASKCONST}), dump=True, coverage=False, workers=4)
         for blk in re.split(r"^State \d+:\s*$", open(res.dump).read(), flags=re.M):
             if '"applied"' not in blk:
                 continue
             st = parse_state(blk)
-            if [int(v) for v in st["mask"]] == c["mask"] and st["layout"] == c["layout"] and bool(st["uncond"]) == c["uncond"] and st["dir"] == c["dir"]:
+            if [int(v) for v in st["mask"]] == c["mask"] and st["layout"] == c["layout"] and bool(st["uncond"]) == c["uncond"] and st["dir"] == c["dir"] and bool(st["bounded"]) == c.get("bounded", False) and sorted(int(i) - 1 for i in st["outside"]) == c.get("outside", []):
                 n, f, d = check_state(st, c["cls"], c["ctx"], c["seed"], c.get("libnet", False))
                 for x in f:
                     run.violation({"cls": x["cls"], "clause": x["clause"]}, "replayed: " + x["detail"], c)
         return
     thorough = run.tier == "thorough"
-    res = T.run_tlc("Coupling", T.cfg(constants={"MaxD": 5 if thorough else 4, "MaskValues": "<- MaskValuesSmall", "NumPixels": 2}, invariants=INVS), dump=True, name="coupling", workers=8)
+    res = T.run_tlc("Coupling", T.cfg(constants={"MaxD": 5 if thorough else 4, **MASKCONST}, invariants=INVS), dump=True, name="coupling", workers=8)
     run.model_must_hold(res, "Coupling")
     run.add_tlc(res, "Coupling exhaustive", require_actions=["DoConstruct", "DoApply"])
     blocks = [b for b in re.split(r"^State \d+:\s*$", open(res.dump).read(), flags=re.M) if '/\\ phase = "applied"' in b]
     rnd = random.Random(run.seed)
     states = [parse_state(b) for b in blocks]
-    small = [s for s in states if len(s["mask"]) <= 3]
+    small = [s for s in states if len(s["mask"]) <= 2]
+    mid = [s for s in states if len(s["mask"]) == 3]
     big = [s for s in states if len(s["mask"]) > 3]
+    rnd.shuffle(mid)
     rnd.shuffle(big)
-    chosen = small + (big[:1500] if thorough else big[:160])
+    if not thorough:
+        mid = mid[:500]
+    small = small + mid
+    chosen = small + (big[:3000] if thorough else big[:240])
     run.extra["spec_states_total"] = len(states)
     run.extra["spec_states_replayed"] = len(chosen)
     nproc = min(16, os.cpu_count() or 4)
@@ -260,9 +337,9 @@ def main(run, replay=None):
         for d in out["drift"][:3]:
             run.note_drift(d)
     for s in chosen:
-        run.nontrivial.add((tuple(int(v) for v in s["mask"]), str(s["layout"]), bool(s["uncond"]), str(s["dir"])))
+        run.nontrivial.add((tuple(int(v) for v in s["mask"]), str(s["layout"]), bool(s["uncond"]), str(s["dir"]), bool(s["bounded"]), tuple(sorted(int(i) for i in s["outside"]))))
     s0 = chosen[len(chosen) // 2]
-    run.sample({"mask": [int(v) for v in s0["mask"]], "layout": str(s0["layout"]), "uncond": bool(s0["uncond"]), "dir": str(s0["dir"]), "ident": [int(i) for i in s0["ident"]], "trans": [int(i) for i in s0["trans"]]})
+    run.sample({"mask": [int(v) for v in s0["mask"]], "layout": str(s0["layout"]), "uncond": bool(s0["uncond"]), "dir": str(s0["dir"]), "mask_unit": "1/%d" % DEN, "bounded": bool(s0["bounded"]), "outside": sorted(int(i) for i in s0["outside"]), "outcome": str(s0["outcome"]), "ident": [int(i) for i in s0["ident"]], "trans": [int(i) for i in s0["trans"]]})
     seen = set()
     for f in fails:
         key = (f["cls"], f["clause"], tuple(f["mask"]), f["layout"], f["dir"])
@@ -272,6 +349,6 @@ def main(run, replay=None):
         run.violation({"cls": f["cls"], "clause": f["clause"], "layout": f["layout"], "dir": f["dir"], "uncond": f["uncond"]}, "%s mask=%s %s %s uncond=%s ctx=%s: %s" % (f["cls"], f["mask"], f["layout"], f["dir"], f["uncond"], f["ctx"], f["detail"]), {k: v for k, v in f.items() if k not in ("detail",)})
     run.exhaustive = thorough
     run.assumptions = [
-        "mask values from {-1, 0, 1, 2}, feature counts 2..MaxD, images of 1x2 pixels; constructor-rejected configurations are outside the quantifier",
+        "mask values from {-1, 0, 1/2, 1, 2} passed as list / tuple / numpy array / float, bool, long or byte tensor; piecewise layers with linear tails and on the unit box (tails=None); feature counts 2..MaxD, images of 1x2 pixels; constructor-rejected configurations are outside the quantifier",
         "dependency is measured by autograd Jacobians at one generic interior point per case; exact zero is taken as 'does not depend'",
     ]
